@@ -138,7 +138,8 @@ DESCR = {
     "TrimGeneric": "the same machine over an arbitrary alphabet (proof vehicle of C13)",
     "Std": "the standard configuration: `stdPrims`, `stdOut`, filter table Num ++ Str ++ Arr ++ Json ++ Date (all 48 registered filters), file-system model, canonical result printing",
     "Conc": "interleaving machine over a store with ownership regions (C04)",
-    "ConcFacts": "the static premise of C04 stated over the generated write table",
+    "ConcFacts": "the store facts (`WriteFact.offending`: the statically checked necessary condition of C04's ownership premise) and the call facts (`auditedGlobalCalls`: the five audited read-only package-level variables) over the generated write table",
+    "MapIterFacts": "the eight audited map-iteration sites of the library with the reason why the order cannot reach the output (sorted before use / copied into a fresh map / conjunction over all entries); read from the source, not proved (T5, C02)",
     "Driver": "line-protocol dispatcher (one op per line → one canonical result line)",
     "Filters/Num": "numeric filter bodies (plus minus times divided_by modulo abs ceil floor round, default, size)",
     "Filters/Str": "string filter bodies (23 filters)",
@@ -150,10 +151,11 @@ DESCR = {
     "Heap": "slice memory (C15/C03 no-write clause): `Store` of backing arrays, `SliceRef` arr/off/len/cap, programs `Prog` (read / write / alloc) with the interpreter `run` returning store and WRITE LOG; Go's `index`, element assignment, `reslice`, `make`, `append` (in place into spare capacity, else allocate), `copy`; `values.Convert(·, []any)` (a `[]any` without drops is passed through uncopied) and the bodies of compact concat join map reverse sort sort_natural first last uniq size default at that level; one filter application `stageF`, pipelines `runChain`; driver op `alias`",
     "TokenReSrc": "`parser.formTokenMatcher` as data (`StrExpr`, `TokenReSrc.pattern`: Sprintf/QuoteMeta/Join/range), `regexp.QuoteMeta`, the printer `Re.toGoSyntax` of the model's expressions in Go syntax (T4)",
     "Rex": "driver ops `rex`/`rexs`: decode an expression, print it, match it, answer like `FindStringSubmatchIndex`",
-    "Generated/Writes": "written by translator T3 on every run: every store to a captured or package-level variable",
+    "Generated/Writes": "written by translator T3 on every run: every store to a captured or package-level variable (store facts) and every call that hands a package-level variable to a callee outside the trusted read-only packages (call facts)",
     "Generated/Grammar": "written by translator T1 on every run: the block grammar table of `AddStandardTags`",
     "Generated/Filters": "written by translator T2 on every run: name, parameter types and result shape of every `AddFilter` of `AddStandardFilters`",
     "Generated/TokenRe": "written by translator T4 on every run: the format string, arguments and exclusion loop of `formTokenMatcher`",
+    "Generated/MapIter": "written by translator T5 on every run: every place where the library iterates a Go map (`range`, `MapKeys`, `MapRange`) and whether its function calls into package `sort`",
 }
 
 
